@@ -62,7 +62,7 @@ impl Prop for C19 {
             Leg {
                 name: "random",
                 kind: LegKind::Random {
-                    cases: tier.pick(8000, 150_000),
+                    cases: tier.pick(400000, 3000000),
                 },
                 workers: 16,
                 build: Build::Normal,
